@@ -385,9 +385,87 @@ pub fn run_deep(path: &str, n: u32) -> Value {
     json!({"v": mism, "reads": reads, "nontrivial": reads, "levels": [0, 0, 0], "keys": n, "probes": 300})
 }
 
+/// One write transaction fills a bucket with 400 entries (one in-memory leaf of several hundred
+/// entries) and then, at every position, overwrites and inserts neighbouring keys in every order:
+/// new key then its existing successor, new key then its existing predecessor, existing key then
+/// a new successor, the same key twice.  Compared with an ordered map after every pair.
+fn wide_pairs(path: &str, reads: &mut u64, mism: &mut Vec<Value>) -> Result<(), String> {
+    let _ = std::fs::remove_file(path);
+    let db = Cfg::default().open(path).map_err(|e| format!("{:?}", e))?;
+    let tx = db.tx(true).map_err(|e| format!("{:?}", e))?;
+    let b = tx.create_bucket("p").map_err(|e| format!("{:?}", e))?;
+    let mut model: std::collections::BTreeMap<Vec<u8>, Vec<u8>> = Default::default();
+    let key = |n: u32| format!("k{:05}", n).into_bytes();
+    for i in 0..400u32 {
+        b.put(key(10 * i), format!("v{}", i)).map_err(|e| format!("{:?}", e))?;
+        model.insert(key(10 * i), format!("v{}", i).into_bytes());
+    }
+    let mut put = |k: Vec<u8>, v: String, model: &mut std::collections::BTreeMap<Vec<u8>, Vec<u8>>| -> Result<(), String> {
+        b.put(k.clone(), v.clone()).map_err(|e| format!("{:?}", e))?;
+        model.insert(k, v.into_bytes());
+        Ok(())
+    };
+    for i in 1..399u32 {
+        match i % 4 {
+            0 => {
+                put(key(10 * i - 1), format!("n{}", i), &mut model)?;
+                put(key(10 * i), format!("s{}", i), &mut model)?;
+            }
+            1 => {
+                put(key(10 * i + 1), format!("n{}", i), &mut model)?;
+                put(key(10 * i), format!("p{}", i), &mut model)?;
+            }
+            2 => {
+                put(key(10 * i), format!("e{}", i), &mut model)?;
+                put(key(10 * i + 1), format!("n{}", i), &mut model)?;
+            }
+            _ => {
+                put(key(10 * i + 5), format!("a{}", i), &mut model)?;
+                put(key(10 * i + 5), format!("b{}", i), &mut model)?;
+            }
+        }
+        *reads += 2;
+        let cnt = b.cursor().count();
+        let got = b.get_kv(key(10 * i)).map(|kv| kv.value().to_vec());
+        if (cnt != model.len() || got.as_ref() != model.get(&key(10 * i))) && mism.len() < 5 {
+            mism.push(json!(["wide_pairs", format!("after the pair of puts around entry {} (pattern {}) inside the write transaction the scan yields {} entries (the map holds {}) and get returns {:?} (the map: {:?})", i, i % 4, cnt, model.len(), got.map(|v| String::from_utf8_lossy(&v).to_string()), model.get(&key(10 * i)).map(|v| String::from_utf8_lossy(v).to_string()))]));
+        }
+    }
+    // one delete must remove the key for good
+    for i in (4..399u32).step_by(4) {
+        b.delete(key(10 * i)).map_err(|e| format!("delete: {:?}", e))?;
+        model.remove(&key(10 * i));
+        *reads += 1;
+        if b.get_kv(key(10 * i)).is_some() && mism.len() < 5 {
+            mism.push(json!(["wide_pairs", format!("entry {} was overwritten right after its new predecessor had been put, then deleted, and is still found", i)]));
+        }
+    }
+    let scan: Vec<(Vec<u8>, Vec<u8>)> = b.kv_pairs().map(|kv| (kv.key().to_vec(), kv.value().to_vec())).collect();
+    let want: Vec<(Vec<u8>, Vec<u8>)> = model.iter().map(|(k, v)| (k.clone(), v.clone())).collect();
+    *reads += 1;
+    if scan != want {
+        mism.push(json!(["wide_pairs", format!("at the end of the write transaction the scan yields {} entries, the map holds {}", scan.len(), want.len())]));
+    }
+    drop(b);
+    tx.commit().map_err(|e| format!("commit: {:?}", e))?;
+    let tx = db.tx(false).map_err(|e| format!("{:?}", e))?;
+    let b = tx.get_bucket("p").map_err(|e| format!("{:?}", e))?;
+    let scan: Vec<(Vec<u8>, Vec<u8>)> = b.kv_pairs().map(|kv| (kv.key().to_vec(), kv.value().to_vec())).collect();
+    *reads += 1;
+    if scan != want {
+        mism.push(json!(["wide_pairs", format!("after commit the scan yields {} entries, the map holds {}", scan.len(), want.len())]));
+    }
+    Ok(())
+}
+
 pub fn run_wide(path: &str) -> Value {
     let mut mism: Vec<Value> = vec![];
     let mut reads = 0u64;
+    match real::guarded(|| wide_pairs(path, &mut reads, &mut mism)) {
+        Ok(Ok(())) => {}
+        Ok(Err(e)) => mism.push(json!(["wide_pairs_error", e])),
+        Err(p) => mism.push(json!([crate::runner::panic_class("wide_pairs_panic", &p), p])),
+    }
     let r = real::guarded(|| -> Result<(), String> {
         let _ = std::fs::remove_file(path);
         let cfg = Cfg::default();
